@@ -198,6 +198,67 @@ example : updates [(⟨10, some 1⟩ : Entry Nat), ⟨0, some 3⟩]
     = [⟨6, none⟩, ⟨5, some 9⟩, ⟨2, some 8⟩, ⟨0, some 3⟩] := by decide
 example : ∀ u ∈ [(⟨4, some 7, some 9⟩ : Upd Nat), ⟨6, none, none⟩, ⟨2, some 4, some 8⟩], u.WF := by decide
 
+/-! ## Clones: histories over several objects -/
+
+/-- One step. `clone()` appends a copy of its source and changes no existing object; an update
+    changes the addressed object (by `f`, the single-object update) and no other. `σ`/`U`/`f` are
+    arbitrary: parameters with `applyUpd`, trees with an update of one of their parameters, … -/
+theorem C06_clone_step {σ U : Type} (f : σ → U → σ) (st : List σ) :
+    (∀ s x, st[s]? = some x → runOp f st (.clone s) = st ++ [x]) ∧
+    (∀ i u x, st[i]? = some x → (runOp f st (.upd i u))[i]? = some (f x u)) ∧
+    (∀ (op : HOp U) j, j < st.length → op.target ≠ some j → (runOp f st op)[j]? = st[j]?) := by
+  refine ⟨?_, ?_, fun op j hj h => getElem?_runOp_of_ne f st op j hj h⟩
+  · intro s x h; simp [runOp, h]
+  · intro i u x h
+    obtain ⟨hi, hx⟩ := List.getElem?_eq_some_iff.mp h
+    simp only [runOp, h]
+    rw [List.getElem?_set_self hi]
+
+/-- For every history of clones and updates: an object to which no update of the history is
+    addressed has, at the end, the content it had at the start — hence every read of it (at any
+    date, `pget`, `atInstant`, `scaleAt`) is unchanged, whatever was done to its clones, its
+    source or any other object, in any interleaving. -/
+theorem C06_clone_independent {σ U : Type} (f : σ → U → σ) (st : List σ) (ops : List (HOp U)) (j : Nat)
+    (hj : j < st.length) (h : ∀ op ∈ ops, op.target ≠ some j) :
+    (runOps f st ops)[j]? = st[j]? :=
+  getElem?_runOps_of_ne f st ops j hj h
+
+/-- For every history starting from one object `x0`: each object at the end is `x0` with the
+    object's *own* updates replayed in order — those addressed to it, and those its source had
+    received before the clone was taken; updates addressed elsewhere do not appear. -/
+theorem C06_clone_trace {σ U : Type} (f : σ → U → σ) (x0 : σ) (ops : List (HOp U)) :
+    runOps f [x0] ops = (runOps snoc [[]] ops).map (fun us => us.foldl f x0) := by
+  have := runOps_map_trace f x0 [[]] ops
+  simpa using this
+
+/-- Parameters: after any history of clones and well-formed updates starting from a sorted
+    parameter, every object is sorted and reads, at every date, what the pointwise theorem
+    (`C06_updates_fold`) says for its own updates alone. -/
+theorem C06_clone_history (l0 : List (Entry V)) (hl : Sorted l0) (ops : List (HOp (Upd V)))
+    (hwf : ∀ i u, HOp.upd i u ∈ ops → u.WF) :
+    runOps applyUpd [l0] ops = (runOps snoc [[]] ops).map (updates l0) ∧
+    ∀ us ∈ runOps snoc [[]] ops,
+      Sorted (updates l0 us) ∧ ∀ d, pget (updates l0 us) d = us.foldl (specStep d) (pget l0 d) := by
+  refine ⟨C06_clone_trace applyUpd l0 ops, ?_⟩
+  intro us hus
+  apply C06_updates_fold l0 hl us
+  intro u hu
+  rcases mem_trace_runOps [[]] ops us hus u hu with ⟨us', h1, h2⟩ | ⟨i, hi⟩
+  · simp only [List.mem_singleton] at h1
+    subst h1
+    cases h2
+  · exact hwf i u hi
+
+-- clone, update the clone over [4, 7], update the original from 12 on: each keeps its own
+example : runOps applyUpd [[(⟨10, some 1⟩ : Entry Nat), ⟨0, some 3⟩]]
+      [.clone 0, .upd 1 ⟨4, some 7, some 9⟩, .upd 0 ⟨12, none, none⟩, .clone 1]
+    = [[⟨12, none⟩, ⟨10, some 1⟩, ⟨0, some 3⟩],
+       [⟨10, some 1⟩, ⟨8, some 3⟩, ⟨4, some 9⟩, ⟨0, some 3⟩],
+       [⟨10, some 1⟩, ⟨8, some 3⟩, ⟨4, some 9⟩, ⟨0, some 3⟩]] := by decide
+example : runOps snoc [([] : List Nat)] [.clone 0, .upd 1 7, .upd 0 8, .clone 1, .upd 2 9]
+    = [[8], [7], [7, 9]] := by decide
+example : ∀ op ∈ [(HOp.clone 0 : HOp (Upd Nat)), .upd 1 ⟨4, some 7, some 9⟩, .clone 1], op.target ≠ some 0 := by decide
+
 /-! ## Nodes -/
 
 /-- A parameter is defined at `d` iff its latest entry on or before `d` exists and is not null. -/
